@@ -78,13 +78,15 @@ def convert_cli(ctx):
     for name, inp, outp, result in scenarios:
         p = common.run([cli, 'convert-to-raw', '--input', inp, '--output', outp], timeout=1800)
         got = hashlib.sha256(open(result, 'rb').read()).hexdigest() if os.path.exists(result) else 'missing'
-        ok = p.returncode == 0 and got == want
-        ctx.oblige(f'CLI convert-to-raw, {name}: exit 0 and the result is the raw encoding of the same system', ok,
+        mode_ok = os.path.exists(result) and (os.stat(result).st_mode & 0o600) == 0o600
+        ok = p.returncode == 0 and got == want and mode_ok
+        ctx.oblige(f'CLI convert-to-raw, {name}: exit 0, the result is the raw encoding of the same system, readable and writable by its owner', ok,
                    '' if ok else f'exit {p.returncode}, result sha256 {got[:16]} (want {want[:16]}), size {os.path.getsize(result) if os.path.exists(result) else 0}: {(p.stderr or "")[-200:]}')
         ctx.extra['extra_evaluations'] = ctx.extra.get('extra_evaluations', 0) + 1
         ctx.extra['extra_distinct'] = ctx.extra.get('extra_distinct', 0) + 1
         if not ok and not bad:
-            bad = (name, p.returncode, got, os.path.getsize(result) if os.path.exists(result) else 0, (p.stderr or '')[-300:])
+            bad = (name, p.returncode, got, os.path.getsize(result) if os.path.exists(result) else 0,
+                   (p.stderr or '')[-300:] + ('' if mode_ok else f' [file mode {oct(os.stat(result).st_mode & 0o7777) if os.path.exists(result) else None}: not readable/writable by its owner]'))
     for f in os.listdir(d):
         if f.endswith('.keys'):
             os.remove(os.path.join(d, f))
